@@ -76,3 +76,12 @@ Definition vadd (u v : list Z) : outcome (list Z) :=
   if Nat.eqb (length u) (length v) then Ok (vadd_aux u v) else Panic ($"lenmismatch").
 Definition vlsh (v : list Z) (s : N) : list Z := map (fun x => Z.shiftl x (Z.of_N s)) v.
 Definition basis (n i : nat) : list Z := map (fun j => if Nat.eqb j i then 1 else 0) (seq 0 n).
+
+(* Clone: append([]*big.Int{}, xs...);  Concat: append(Clone(xs), ys...) *)
+Definition clone (xs : list Z) : list Z := [] ++ xs.
+Definition concat (xs ys : list Z) : list Z := clone xs ++ ys.
+
+(* bigvector.New(n): n zeros.  basis.Idx(j): panics for j >= n *)
+Definition vnew (n : nat) : list Z := repeat 0 n.
+Definition basis_idx (n i j : nat) : outcome Z :=
+  if Nat.leb n j then Panic ($"index") else Ok (if Nat.eqb j i then 1 else 0).
